@@ -2,7 +2,7 @@
 from __future__ import annotations
 
 import ast
-from typing import Dict, List, Optional, Set, Tuple
+from typing import Any, Dict, List, Optional, Set, Tuple
 
 from .. import sym
 from ..cfg import Ev, Graph, find_path, reach
@@ -446,10 +446,24 @@ def rule_source_and_ids(ctx: Ctx, out: Collector) -> None:
     from ..absint import AObj, ARaise, Interp, Oracle, TOP, enumerate_outcomes
     p = ctx.p
     ci = _config_class(ctx)
-    target = None
-    for m in ci.methods.values():
+    def asks_source(u: FuncUnit, depth: int = 2) -> bool:
+        # inspect.getsourcelines & co, called by the function itself or by a helper of its module
         if any(isinstance(n, ast.Call) and (dotted(n.func) or '').split('.')[-1] in ('getsourcelines', 'findsource', 'getsourcefile')
-               for n in ast.walk(m.node)):
+               for n in ast.walk(u.node)):
+            return True
+        if depth == 0 or isinstance(u.node, ast.Lambda):
+            return False
+        env_ = FuncEnv.of(p, u)
+        return any(t_[0] == 'func' and t_[1].module is u.module and t_[1] is not u and asks_source(t_[1], depth - 1)
+                   for c_ in env_.own_nodes() if isinstance(c_, ast.Call) for t_ in env_.resolve_call(c_))
+    cands = [m for m in ci.methods.values() if asks_source(m)]
+    # the innermost method of the class that does it (generate() reaches it too)
+    target = None
+    for m in cands:
+        env_ = FuncEnv.of(p, m)
+        calls_other = any(t_[0] == 'func' and t_[1] in cands and t_[1] is not m for c_ in env_.own_nodes() if isinstance(c_, ast.Call)
+                          for t_ in env_.resolve_call(c_))
+        if not calls_other:
             target = m
     if target is None:
         raise AnalysisError('the function computing the source link of a node was not found (VW-7 anchor vanished)')
@@ -549,6 +563,24 @@ def rule_source_and_ids(ctx: Ctx, out: Collector) -> None:
                 ids.append(next(iter(vals)))
             if not undecided and ids[0] == ids[1]:
                 collisions.append(f'{pair_a} and {pair_b} both get the id {ids[0]!r}')
+        # endpoints that differ in one character give different ids
+        folded: List[str] = []
+        if not undecided:
+            seen_ids: Dict[Any, Tuple[str, str]] = {}
+            for s_ in ('a.b', 'a_b', 'a-b', 'a b', 'A_b', 'a__b'):
+                for t_ in ('c', 'c.d', 'c_d'):
+                    def run2(oracle: Oracle, s_=s_, t_=t_):
+                        e = AObj(sc, {'source': s_, 'target': t_, 'id': None})
+                        Interp(p, oracle).call_unit(post, [], {}, e)
+                        return e.attrs.get('id')
+                    vals = {o[1] if o[0] == 'value' else 'raises' for o in enumerate_outcomes(run2)}
+                    if len(vals) != 1 or TOP in vals:
+                        undecided = True
+                        continue
+                    v_ = next(iter(vals))
+                    if v_ in seen_ids and seen_ids[v_] != (s_, t_):
+                        folded.append(f'{seen_ids[v_]} and {(s_, t_)} both get the id {v_!r}')
+                    seen_ids.setdefault(v_, (s_, t_))
         if undecided:
             raise AnalysisError('the edge id computed by schema.Edge.__post_init__ could not be evaluated (VW-8 undecided)')
         cons = f'{sc.module.name}::Edge::the id is an injective function of (source, target) [edge-id-injective]'
@@ -557,6 +589,12 @@ def rule_source_and_ids(ctx: Ctx, out: Collector) -> None:
         else:
             out.bad('VW-8', cons, p.loc(sc.module, sc.node), 'node names are free text; the edge id is the two node ids joined by a separator '
                     'that may occur in them, so two different DAG edges can get the same id: ' + collisions[0])
+        cons = f'{sc.module.name}::Edge::endpoints that differ in one character give different edge ids [edge-id-keeps-characters]'
+        if not folded:
+            out.ok('VW-8', cons, p.loc(sc.module, sc.node), '18 (source, target) pairs that differ in one character: 18 ids')
+        else:
+            out.bad('VW-8', cons, p.loc(sc.module, sc.node), 'the edge id folds characters of the node ids: two different DAG edges get the same '
+                    'id (one entry per dependency with a unique id no longer holds): ' + folded[0])
 
 
 def rule_type_table(ctx: Ctx, out: Collector) -> None:
